@@ -4,6 +4,7 @@ VIRTUAL: cassandra.connection.time is replaced by a clock that only HeartbeatFut
 reply (supported / error / silence) arrives at a scripted instant after the wait phase began."""
 from cassandra.connection import ConnectionHeartbeat, HeartbeatFuture
 import cassandra.connection as cconn
+import threading
 
 T_DEFAULT = 100      # idle_heartbeat_timeout in virtual ticks
 
@@ -36,14 +37,15 @@ class Clock(object):
         self.now += t
 
 
-def run_rounds(harnesses, rounds, T=T_DEFAULT):
+def run_rounds(harnesses, rounds, T=T_DEFAULT, holders=None):
     """harnesses: list of Harness (one real connection + its real HostConnection owner each).
     rounds: list of dicts {'replies': [...], 'delays': [...] (virtual ticks after the wait phase began, None = at once),
                            'raise_in_owner': [indices whose owner's failure handling raises once]}.
     Returns per round, per harness: dict(sent, waited_ok)"""
     hb = ConnectionHeartbeat.__new__(ConnectionHeartbeat)
     hb._interval, hb._timeout = 30, T
-    holders = [h.pool for h in harnesses]
+    if holders is None:
+        holders = [h.pool for h in harnesses]
     hb._get_connection_holders = lambda: holders
     clock = Clock()
     st = {'round': 0, 'phase_start': None, 'fed': set()}
@@ -93,6 +95,20 @@ def run_rounds(harnesses, rounds, T=T_DEFAULT):
             h.checkpoint()
         h.hb_future = self
         self.vf_round = st['round']
+        # ordering probe: what a thread blocked in wait() sees at the very moment the event is set
+        fut, ev0 = self, self._event
+
+        class ProbeEvent(threading.Event):
+            def set(self_):
+                if not getattr(fut, 'vf_set_seen', False):
+                    fut.vf_set_seen = True
+                    fut.vf_exc_at_set = fut._exception
+                threading.Event.set(self_)
+        pe = ProbeEvent()
+        if ev0.is_set():
+            self.vf_set_seen, self.vf_exc_at_set = True, self._exception
+            threading.Event.set(pe)
+        self._event = pe
         report[st['round']][harnesses.index(h)]['sent'] = any(w[1] == h.hb_tok for w in h.wire)
 
     def hbf_wait(self, timeout):
@@ -103,16 +119,28 @@ def run_rounds(harnesses, rounds, T=T_DEFAULT):
         advance_to(clock.now)
         stale = getattr(self, 'vf_round', st['round']) != st['round']
         a = None if stale else arrival(k)
+        was_blocked = not self._event.is_set()
         if not self._event.is_set():
             if a is not None and timeout is not None and timeout > 0 and a <= clock.now + timeout:
                 advance_to(a)
             else:
                 advance_to(clock.now + max(timeout or 0, 0))
+        early = (was_blocked and self._event.is_set() and getattr(self, 'vf_set_seen', False)
+                 and self.vf_exc_at_set is None and self._exception is not None)
+        saved_exc = self._exception
+        if early:
+            # the waiter was blocked in wait() when the reply came in on the event thread: it wakes up when the event is set and
+            # reads _exception as it was AT THAT MOMENT (the callback had not stored it yet)
+            h.hb_early_wakes += 1
+            self._exception = None
         try:
             r = orig_wait(self, 0)
         except Exception:
             report[st['round']][k]['waited_ok'] = False
             raise
+        finally:
+            if early:
+                self._exception = saved_exc
         report[st['round']][k]['waited_ok'] = True
         h.hb_waited_ok = True
         if stale:
@@ -163,3 +191,73 @@ def run_rounds(harnesses, rounds, T=T_DEFAULT):
 
 def run_round(harnesses, replies, busy=()):
     return run_rounds(harnesses, [{'replies': list(replies)}])[0]
+
+
+# ---------------------------------------------------------------------------------------------- legacy (v1/v2) pool as holder
+class LegacyCluster(object):
+    connect_to_remote_hosts = True
+
+    def __init__(self, conns):
+        self.conns = list(conns)
+        self.failures = 0
+
+    def get_core_connections_per_host(self, distance):
+        return len(self.conns_all)
+
+    def get_min_requests_per_connection(self, distance):
+        return 0
+
+    def get_max_requests_per_connection(self, distance):
+        return 100
+
+    def get_max_connections_per_host(self, distance):
+        return len(self.conns_all)
+
+    def connection_factory(self, endpoint, on_orphaned_stream_released=None):
+        c = self.conns.pop(0)
+        c._on_orphaned_stream_released = on_orphaned_stream_released
+        return c
+
+    def signal_connection_failure(self, host, exc, is_host_addition=False):
+        self.failures += 1
+        return False
+
+    def on_down(self, host, is_host_addition=False):
+        pass
+
+
+class LegacySession(object):
+    keyspace = None
+
+    def __init__(self, conns):
+        self.cluster = LegacyCluster(conns)
+        self.cluster.conns_all = list(conns)
+        self.submitted = []
+
+    def submit(self, fn, *a, **kw):
+        self.submitted.append((fn, a, kw))
+        return (fn, a, kw)
+
+
+def make_legacy_pool(harnesses):
+    """a REAL cassandra.pool.HostConnectionPool (the v1/v2 pool class, several connections per host) built by its own __init__ over
+    the harnesses' real connections, in the given order"""
+    from cassandra.pool import HostConnectionPool
+    from cassandra.policies import HostDistance
+
+    class LPool(HostConnectionPool):
+        def return_connection(self, connection, stream_was_orphaned=False):
+            h = connection.h
+            if not stream_was_orphaned:
+                notify = h.in_hb_notify and not h.cb_stack
+                h.emit('OwnerReturn' if notify else 'ReturnConn')
+                if notify:
+                    h.event([12])
+            try:
+                return HostConnectionPool.return_connection(self, connection, stream_was_orphaned)
+            finally:
+                h.checkpoint()
+    session = LegacySession([h.conn for h in harnesses])
+    pool = LPool(harnesses[0].host, HostDistance.LOCAL, session)
+    pool._vf_session = session          # the pool only keeps a weak proxy
+    return pool
